@@ -410,6 +410,31 @@ def rule_R7(ck):
                          construct="poly wait shared variable", expected=repr(want), found=repr(gen[0].value))
     except Unsupported as ex:
         ck.note(f"wait-shared-early not evaluated: {ex}")
+    # a first attempt while one variable is known and the other is not must keep the unknown one:
+    #   c1*K1 + c2*K2 + C,  K1 := E,  attempt (not ready),  K2 := D  ->  c1*E + c2*D + C
+    def thunk2d():
+        K1, K2 = prom("K1"), prom("K2")
+        P = mkpoly(I, {K1: c1, K2: c2}, C)
+        I.call_method(K1, "settle", [E])
+        tc = I.module_get("deferred", "try_compute")
+        I.call_method(tc, "__enter__", [])
+        try:
+            I.call_method(P, "wait", [])
+        except Raised:
+            pass
+        I.call_method(tc, "__exit__", [None, None, None])
+        I.call_method(K2, "settle", [D])
+        return I.call(I.module_get("deferred", "wait"), [P], {})
+    try:
+        ps = I.explore(thunk2d)
+        gen = [p for p in ps if all(v for k, v in p.decisions)] or ps
+        want = sym.add(sym.add(sym.mul(c1, E), sym.mul(c2, D)), C)
+        ck.instance(("poly", "wait-partial"), {"c1*K1 + c2*K2 + C, K1 known, attempt, then K2 known": repr(gen[0].value)}, fn="deferred::LinearPolynomial._wait")
+        if gen[0].kind != "return" or gen[0].value != want:
+            ck.violation("deferred::LinearPolynomial._wait", f"c1*K1 + c2*K2 + C evaluated once while only K1 is known and again when K2 is known gives {gen[0].value!r}, expected {want!r}: "
+                                                             "the first attempt must keep the still unknown variable", construct="poly wait partial", expected=repr(want), found=repr(gen[0].value))
+    except Unsupported as ex:
+        ck.note(f"wait-partial not evaluated: {ex}")
     # cancellation while unknown: (K1 + c) - K1 is the constant c without waiting K1
     def thunk3():
         K1 = prom("K1")
